@@ -190,7 +190,7 @@ fn radix_strings() -> Vec<String> {
     v
 }
 
-fn boundary_leg(g: &Grammar) -> Acc {
+fn boundary_leg(g: &Grammar, all_scalars: bool) -> Acc {
     let ds = digit_strings();
     let mut lits: Vec<String> = Vec::new();
     for d in &ds {
@@ -290,6 +290,29 @@ fn boundary_leg(g: &Grammar) -> Acc {
             }
         }
     }
+    // character classes: every scalar below U+3000 and every numeric or white-space character
+    // of the whole code space (thorough: every scalar), in each position where the lexer decides by
+    // character class (digits of every literal kind and of index steps, identifier characters,
+    // separators, string contents, escapes, comments, metadata keys)
+    {
+        let mut cs: Vec<char> = Vec::new();
+        for u in 0x80u32..=0x10ffff {
+            if let Some(c) = char::from_u32(u) {
+                if all_scalars || u < 0x3000 || c.is_numeric() || c.is_whitespace() {
+                    cs.push(c);
+                }
+            }
+        }
+        for c in cs {
+            for t in [
+                format!("x.{c}"), format!("x.1{c}"), format!("x.{c}1.y"), format!("[i1].{c}"), format!("i{c}"), format!("i1{c}"), format!("i-{c}"), format!("f1.{c}"), format!("f{c}.5"), format!("f1e{c}"),
+                format!("d{c}"), format!("d1.{c}"), format!("0x{c}"), format!("0b1{c}"), format!("x{c}"), format!("{c}"), format!("{c}x"), format!("x{c}y"), format!("x {c} y"), format!("\"{c}\""),
+                format!("\"\\{c}\""), format!("\"\\u{{{c}}}\""), format!("// {c}\nx"), format!("@k{c}: i1;\nx"), format!("@{c}: i1;\nx"), format!("// n{c}\n@k: \"{c}\";\nx.{c}"),
+            ] {
+                texts.push(t);
+            }
+        }
+    }
     texts.sort();
     texts.dedup();
     texts
@@ -319,7 +342,8 @@ pub fn run(tier: Tier) -> i32 {
     rep.absorb(a1);
     let (a2, n2) = string_leg(&g, str_len, true, "C06", &C06_KINDS);
     rep.absorb(a2);
-    rep.absorb(boundary_leg(&g));
+    rep.absorb(boundary_leg(&g, tier == Tier::Thorough));
+    rep.bound("character_class_sweep", tier.pick("every scalar below U+3000 plus every numeric / white-space scalar, 26 contexts", "every Unicode scalar, 26 contexts"));
     let nb = rep.acc.get("boundary_texts");
     rep.states = n1 + n2 + nb;
     rep.transitions = n1 + n2 + nb;
